@@ -36,6 +36,19 @@ def coordinationEnvironment (nn : Nat) (group : Nat) (isD8 isXe : Bool) : Env :=
   | 6 => .octahedral
   | _ => .unknown
 
+/-- Everything atom typing reads of the bond set for atom `a` (besides coordinates and the atom's element): its
+neighbour list (sorted), how many of its bonds are aromatic, and twice the sum of its bond orders (formal charge, d8-ness). -/
+structure AtomView where
+  nbrs : List Nat
+  nAromatic : Nat
+  orderSumTwice : Nat
+deriving DecidableEq, Repr
+
+def atomView (bs : List Bond) (a : Nat) : AtomView :=
+  { nbrs := neighbours bs a,
+    nAromatic := bs.countP (fun b => b.contains a && b.order == .aromatic),
+    orderSumTwice := ((bs.filter (·.contains a)).map (·.order.twice)).sum }
+
 inductive TermKind where
   | bond | angleA | angleB | torsion | inversion | lj | repulsion
 deriving DecidableEq, Repr, Inhabited
